@@ -101,6 +101,18 @@ def generate(rng, tier):
             k = rng.randint(1, len(names))
             case["subset"] = rng.sample(list(gnames), k)
             case["map"] = {}
+        if case["reader"] == "df-csv" and not case.get("noheader") and rng.random() < 0.2:
+            case["bom"] = True        # a file that starts with a UTF-8 byte order mark (spreadsheet "CSV UTF-8" export)
+        if case["reader"] == "df-csv" and rng.random() < 0.05:
+            # a wide header-less file: generated names go beyond one letter; the restriction is by position in the full read's names
+            nc = rng.choice([28, 30, 55])
+            case["cols"] = [(f"c{j:02d}", "int", [j * 1000 + i for i in range(n)]) for j in range(nc)]
+            case["noheader"] = True
+            case["wide_idx"] = rng.sample(range(nc), rng.randint(1, 4)) + [rng.randrange(26, nc)]
+            case["subset"] = ["?"]
+            case["map"] = {}
+            case["writer"] = "independent"
+            case.pop("bom", None)
     else:
         alias = alias0
         case["alias"] = alias
@@ -255,8 +267,15 @@ def execute(case):
                 names = list("abcdefghij"[:len(names)])
                 res.cls("restrict:header-less")
             if reader == "df-csv":
-                path = os.path.join(d, "f.csv"); _write(case, path, "csv", sep=sep, header=hdr)
+                path = os.path.join(d, "f.csv"); _write(case, path, "csv", sep=sep, header=hdr, enc="utf-8-sig" if case.get("bom") else "utf-8")
+                if case.get("bom"): res.cls("restrict:csv-with-bom")
                 full = di.DataFrame.read_csv(path, sep=sep, header=hdr)
+                if case.get("wide_idx"):
+                    names = list(dict.keys(full))
+                    sub = []
+                    for j in case["wide_idx"]:
+                        if names[j] not in sub: sub.append(names[j])
+                    res.cls("restrict:wide-header-less")
                 got = di.DataFrame.read_csv(path, sep=sep, header=hdr, columns=list(sub), dtypes={k: TYPES.get(v, v) for k, v in m.items()})
             elif reader == "df-json":
                 path = os.path.join(d, "f.json"); _write(case, path, "json")
